@@ -579,7 +579,7 @@ fn expect_real(scn: &Scenario, flat: &Flat, c: &CallRec) -> bool {
     use crate::model::*;
     let cfg = &scn.config;
     let Some(pre) = &c.pre else { return false };
-    if let Some(Fault::MatcherPanic { .. }) = crate::oracle::op_fault(scn, c.op) {
+    if let Some(Fault::MatcherPanic { .. }) | Some(Fault::MatcherMustNotRun { .. }) = crate::oracle::op_fault(scn, c.op) {
         return false;
     }
     if !flat.mentioned(c.m) {
